@@ -682,6 +682,10 @@ struct Value {
             return value_->operator<(val);
         }
 
+        if (val.Type() == ValueType::ValuePtr) {
+            return (*this < *(val.value_));
+        }
+
         return (type < val.Type());
     }
 
@@ -727,6 +731,10 @@ struct Value {
             }
         } else if (type == ValueType::ValuePtr) {
             return value_->operator>(val);
+        }
+
+        if (val.Type() == ValueType::ValuePtr) {
+            return (*this > *(val.value_));
         }
 
         return (type > val.Type());
@@ -776,6 +784,10 @@ struct Value {
             return value_->operator<=(val);
         }
 
+        if (val.Type() == ValueType::ValuePtr) {
+            return (*this <= *(val.value_));
+        }
+
         return (type < val.Type());
     }
 
@@ -823,6 +835,10 @@ struct Value {
             return value_->operator>=(val);
         }
 
+        if (val.Type() == ValueType::ValuePtr) {
+            return (*this >= *(val.value_));
+        }
+
         return (type > val.Type());
     }
 
@@ -868,6 +884,10 @@ struct Value {
             }
         } else if (type == ValueType::ValuePtr) {
             return value_->operator==(val);
+        }
+
+        if (val.Type() == ValueType::ValuePtr) {
+            return (*this == *(val.value_));
         }
 
         return false;
